@@ -1566,10 +1566,10 @@ description :
     }
 
 reference_stmt :
-    kywd_reference string_value token_semi {
+    kywd_reference string_value statement_end {
         l := yylex.(*lexer)
         l.builder.Reference(l.stack.peek(), $2)
-        if chkErr(yylex, l.builder.LastErr) {
+        if chkErr2(l, "reference", $3) {
             goto ret1
         }
     }
